@@ -42,11 +42,16 @@ func defaultPalette() []string {
 }
 
 func runPP(content []byte, args []string, banner bool) (string, int) {
+	return runPPEnv(content, args, banner, nil)
+}
+
+func runPPEnv(content []byte, args []string, banner bool, extraEnv []string) (string, int) {
 	cmd := exec.Command(os.Getenv("VERIF_PP"), args...)
 	cmd.Stdin = bytes.NewReader(content)
+	cmd.Dir = "/"
 	var out bytes.Buffer
 	cmd.Stdout = &out
-	env := []string{"PATH=/usr/bin:/bin", "HOME=/tmp", "TERM=xterm"}
+	env := append([]string{"PATH=/usr/bin:/bin", "HOME=/tmp", "TERM=xterm"}, extraEnv...)
 	if !banner {
 		env = append(env, "GOTRACEBACK=all")
 	}
@@ -80,6 +85,18 @@ func emitPP(id string, content []byte, level, pf, lit string, banner bool, ngor 
 			det = "0"
 		}
 	}
+	// pp in its DEFAULT mode (path guessing and source analysis on) in an environment where no Go root, no GOPATH
+	// and none of the dump's files exist: nothing can be rebased or augmented, the output must be the plain one
+	def := "1"
+	var dargs []string
+	for _, a := range base {
+		if a != "-rebase=false" {
+			dargs = append(dargs, a)
+		}
+	}
+	if d, de := runPPEnv(content, append(dargs, "-no-color"), banner, []string{"GOROOT=/nonexistent/goroot", "GOPATH=/nonexistent/gopath"}); d != plain || de != pe {
+		def = "0"
+	}
 	filt, fe, mat, me := "", 0, "", 0
 	if lit != "" {
 		q := regexp.QuoteMeta(lit)
@@ -104,12 +121,12 @@ func emitPP(id string, content []byte, level, pf, lit string, banner bool, ngor 
 	}
 	emit("pp", id, hexs(content), level, pf, hexs([]byte(lit)), b, strings.Join(pal, ","),
 		hexs([]byte(plain)), fmt.Sprint(pe), hexs([]byte(color)), fmt.Sprint(ce),
-		hexs([]byte(filt)), fmt.Sprint(fe), hexs([]byte(mat)), fmt.Sprint(me), ngor, junks, det)
+		hexs([]byte(filt)), fmt.Sprint(fe), hexs([]byte(mat)), fmt.Sprint(me), ngor, junks, det, def)
 }
 
 func init() {
 	replayers["pp"] = func(id string, in []string) {
-		emitPP(id, unhexs(in[0]), in[1], in[2], string(unhexs(in[3])), in[4] == "1", in[len(in)-2], in[len(in)-1])
+		emitPP(id, unhexs(in[0]), in[1], in[2], string(unhexs(in[3])), in[4] == "1", in[14], in[15])
 	}
 }
 
